@@ -93,6 +93,7 @@ impl Shape {
         let crowd = cx.rng.chance(1, 40);
         let n = if crowd { cx.rng.range(70, 150) } else { cx.rng.range(1, 6) };
         let mut recs: Vec<Rec> = vec![];
+        let mut planted: Option<String> = None;
         // the word every record of a crowded store starts with; for C05 a short one whose scrambled spelling
         // shares no gram with it
         let common: &str = if self.0 == Which::Related { *cx.rng.pick(&["the", "form", "metal", "wifi", "her"]) } else { "metal" };
@@ -112,6 +113,18 @@ impl Shape {
         }
         if crowd {
             cx.count("stores of 70-150 records with one very long title");
+        }
+        if self.0 == Which::Related && !crowd && cx.rng.chance(1, 40) {
+            // a letter outside the BMP behind two letters that differ only in the bits such a letter's upper half would
+            // overlap if a gram were packed into 16 bits per letter - next to a word whose scrambled spelling matches
+            // it fuzzily without sharing a gram: nothing in the query shares a gram with the title
+            let (p1, p2, z) = *cx.rng.pick(&[('a', 'c', '\u{20bb7}'), ('b', 'c', '\u{10428}'), ('d', 'e', '\u{10428}'), ('d', 'f', '\u{20bb7}')]);
+            let w = *cx.rng.pick(&["abc", "the", "ant", "form"]);
+            recs.push((9_999, format!("{} {}{}", w, p1, z), 7));
+            let mut c = cv(w);
+            c.swap(0, 1);
+            planted = Some(format!("{} {}{}", s(&c), p2, z));
+            cx.count("stores with a 16-bit look-alike gram pair");
         }
         let limit = if crowd { if self.0 == Which::Related { *cx.rng.pick(&[1, 2, 3, 10, 200]) } else { 200 } } else { *cx.rng.pick(&[10, 10, 10, 1, 2, 3, 65536]) };
         // C05/C09 read the spans from sentinel markers; one store in three is configured with sentinel
@@ -142,7 +155,9 @@ impl Shape {
         let toks: Vec<TextOwn> = recs.iter().map(|r| st.tok_record(&r.1)).collect();
         let rgrams: Vec<BTreeSet<oracle::Gram>> = toks.iter().map(oracle::grams_of).collect();
         for qk in 0..8 {
-            let q = if crowd && self.0 == Which::Related && qk < 4 {
+            let q = if let (Some(pq), 1) = (&planted, qk) {
+                pq.clone()
+            } else if crowd && self.0 == Which::Related && qk < 4 {
                 // a session on a crowded store: the common word (touches more records than any candidate cap),
                 // then its scrambled spelling (shares no gram with it)
                 if qk % 2 == 0 { common.to_string() } else { scrambled.clone() }
@@ -760,7 +775,7 @@ impl Prop for Shape {
     fn floors(&self) -> Vec<(&'static str, u64, u64)> {
         match self.0 {
             Which::Titles => vec![("hit with span", 2000, 20000), ("hit whose title needed composition", 50, 500), ("hit with expanding letter", 50, 500), ("hit whose title has NUL", 30, 300), ("hit whose title contains marker text", 50, 500), ("bridge searches with hits", 200, 2000), ("empty-query searches", 100, 1000), ("stores cleared and refilled before a search", 1000, 10000), ("stores of 70-150 records with one very long title", 100, 5000)],
-            Which::Related => vec![("hit with fuzzy span", 200, 2000), ("hit with joined-record spans", 20, 200), ("exact-prefix case", 2000, 20000), ("exact-prefix ending inside an expanded letter", 5, 50), ("corpus-store searches", 300, 8000), ("corpus-store searches with more than 8 query words", 50, 1200), ("big-catalogue searches", 100, 1000), ("stores cleared and refilled before a search", 1000, 10000), ("session searches on one store", 600000, 4000000), ("session hits judged", 60000, 400000)],
+            Which::Related => vec![("hit with fuzzy span", 200, 2000), ("hit with joined-record spans", 20, 200), ("exact-prefix case", 2000, 20000), ("exact-prefix ending inside an expanded letter", 5, 50), ("corpus-store searches", 300, 8000), ("corpus-store searches with more than 8 query words", 50, 1200), ("big-catalogue searches", 100, 1000), ("stores with a 16-bit look-alike gram pair", 100, 1000), ("stores cleared and refilled before a search", 1000, 10000), ("session searches on one store", 600000, 4000000), ("session hits judged", 60000, 400000)],
             Which::Markup => vec![("hit with 2+ spans", 500, 5000), ("stores cleared and refilled before a search", 1000, 10000), ("joined-record split (more spans than query words)", 20, 200), ("hit of separator-only query", 200, 2000), ("span in title with padding", 30, 300), ("joined-with-typos hits with 2+ spans and typos", 2000, 100000), ("stores with opening and closing markers of different lengths", 1000, 10000)],
         }
     }
